@@ -139,6 +139,13 @@ func (r *Results) Next() bool {
 		return r.terminate()
 	default:
 	}
+	// r.ctx is derived from the Query context; for a Context implementation
+	// other than the standard library's the cancellation reaches it
+	// asynchronously. Consult the Query context itself, so a query canceled
+	// before this call is never reported as complete.
+	if r.callerCtx.Err() != nil {
+		return r.terminate()
+	}
 
 	if r.pendingIdx < len(r.pending) {
 		r.current = r.pending[r.pendingIdx]
